@@ -198,3 +198,33 @@ L('class_letter_partition', {'u': 'str', 'a': 'char', 'k': 'int'},
 # ----------------------------------------------------------------------------- C20: offsets of the rendered blocks (linear arithmetic with div)
 T('render_off_step', {'k': 'int'},
   'render_off(k + 1) == render_off(k) + 30 + ite(k % 10 == 0, 1, 0) + ite(k % 50 == 0, 4, 0)', requires=['k >= 0'])
+
+# ----------------------------------------------------------------------------- C10: links between the profiles and the global parameters
+# (the closed forms are the ones the global getters (C02/C04) and the profile functions (C10) are proved to return)
+T('C10_link_wN', {'s': 'str', 'N': 'int'},
+  'And(win_ncpr(s, 0, N) == toreal(npos(s, 0, N) - nneg(s, 0, N)) / N, win_fcr(s, 0, N) == toreal(npos(s, 0, N) + nneg(s, 0, N)) / N, '
+  'win_sigma(s, 0, N) == sigma_seq(s, N), win_hydro(s, 0, N) == res_sum(T_kd_uversky, s, 0, N) / N)', requires=['N >= 1'])
+# delta is the mean over the w = 5 and w = 6 sigma profiles of the squared deviation from the global sigma
+T('C10_link_delta', {'s': 'str', 'N': 'int'},
+  'delta_spec(s, N) == (ite(N - 5 + 1 <= 0, 0, rsum(lambda i: (sigma_seq(s, N) - win_sigma(s, i, 5)) * (sigma_seq(s, N) - win_sigma(s, i, 5)), 0, N - 5 + 1) / toreal(N - 5 + 1)) + '
+  'ite(N - 6 + 1 <= 0, 0, rsum(lambda i: (sigma_seq(s, N) - win_sigma(s, i, 6)) * (sigma_seq(s, N) - win_sigma(s, i, 6)), 0, N - 6 + 1) / toreal(N - 6 + 1))) / 2',
+  requires=['N >= 1'], uses=['when(N >= 5, sum_scale_5(s, N, N - 5 + 1))', 'when(N >= 6, sum_scale_6(s, N, N - 6 + 1))'])
+for _b in (5, 6):
+    L('sum_scale_%d' % _b, {'s': 'str', 'N': 'int', 'k': 'int'},
+      'dform_upto(s, N, %d, k) == rsum(lambda i: (sigma_seq(s, N) - win_sigma(s, i, %d)) * (sigma_seq(s, N) - win_sigma(s, i, %d)), 0, k) / toreal(N - %d + 1)' % (_b, _b, _b, _b),
+      ind='k', base='0', requires=['N >= %d' % _b])
+
+# ----------------------------------------------------------------------------- C11: the Wootton-Federhen value sees only the letter counts of its window
+_SAMECNT = 'forall(lambda a: cnt(lambda j: s[j] == alpha[a], i, i + w) == cnt(lambda j: t[j] == alpha[a], k, k + w), 0, length(alpha))'
+L('wf_counts_only', {'s': 'str', 't': 'str', 'alpha': 'list[char]', 'i': 'int', 'k': 'int', 'w': 'int', 'upto': 'int'},
+  'wf_partial(s, alpha, i, w, upto) == wf_partial(t, alpha, k, w, upto)', ind='upto', base='0', requires=[_SAMECNT, 'w >= 1', 'upto <= length(alpha)'])
+T('C11_wf_permutation', {'s': 'str', 't': 'str', 'alpha': 'list[char]', 'i': 'int', 'k': 'int', 'w': 'int'},
+  'wf_spec(s, alpha, i, w) == wf_spec(t, alpha, k, w)', requires=[_SAMECNT, 'w >= 1'],
+  uses=['wf_counts_only(s, t, alpha, i, k, w, length(alpha))'])
+# a window of one repeated letter has entropy 0 (every share is 0 or 1; log_b 1 = 0)
+_HOMO = 'forall(lambda j: s[j] == c, i, i + w)'
+L('wf_homopolymer', {'s': 'str', 'alpha': 'list[char]', 'c': 'char', 'i': 'int', 'w': 'int', 'upto': 'int'},
+  'wf_partial(s, alpha, i, w, upto) == 0', ind='upto', base='0', requires=[_HOMO, 'w >= 1', 'upto <= length(alpha)'],
+  uses=['when(alpha[upto - 1] == c, nsym_all(s, alpha[upto - 1], i, i + w))', 'when(Not(alpha[upto - 1] == c), nsym_none(s, alpha[upto - 1], i, i + w))'])
+T('C11_wf_homopolymer', {'s': 'str', 'alpha': 'list[char]', 'c': 'char', 'i': 'int', 'w': 'int'},
+  'wf_spec(s, alpha, i, w) == 0', requires=[_HOMO, 'w >= 1'], uses=['wf_homopolymer(s, alpha, c, i, w, length(alpha))'])
